@@ -6,6 +6,7 @@
 //!   hold    reply only after the NEXT request was answered (out-of-order replies)
 //! case c04 <seed> <i> timeout_ms=<t>
 //! call <stream> <k> <action> -> ok:<payload>|timeout|err:<text> <elapsed_ms>
+//! (after the churn: a requestor with two clones survives a cut connection, then overlapping calls on the clones)
 //! (after the two rounds: requestor churn -- a stream with a late-answered call is dropped, a new stream's first call is never answered)
 use crate::net::*;
 use crate::util::*;
@@ -218,6 +219,60 @@ pub async fn run_case(client: &Client, addr: std::net::SocketAddr, certs: &Certs
             }
             Err(e) => {
                 let _ = writeln!(out, "harness_error {}", e.replace(' ', "_"));
+            }
+        }
+    }
+    // after a recovered outage: two clones of one requestor, each recovered on its own, have calls
+    // in flight at the same time (the first answered after the second): each gets its own reply
+    if let Ok(oc) = connect_client(addr, certs, BackoffStrategy::constant().with_max_attempts(3).with_step(Duration::from_millis(10))).await {
+        let b = oc
+            .requestor(&topic)
+            .with_request_encoder(StringCodec)
+            .with_reply_decoder(StringCodec)
+            .with_request_timeout(Duration::from_millis(timeout_ms));
+        if let Ok(Ok(q)) = match b {
+            Ok(b) => Ok(b.open().await),
+            Err(e) => Err(e),
+        } {
+            let s_out = streams + 20;
+            let (mut a, mut b) = (q.clone(), q.clone());
+            let _ = a.request(format!("rq-{}-3-0|quick", s_out)).await;
+            let _ = b.request(format!("rq-{}-3-1|quick", s_out)).await;
+            oc.__verif_close_connection().await;
+            tokio::time::sleep(Duration::from_millis(40)).await;
+            // each clone recovers on its own (retried: recovery itself is C12's subject)
+            let mut recovered = true;
+            for (k, c) in [&mut a, &mut b].into_iter().enumerate() {
+                let mut ok = false;
+                for t in 0..4 {
+                    if c.request(format!("rq-{}-3-{}|quick", s_out, 10 + 4 * k + t)).await.is_ok() {
+                        ok = true;
+                        break;
+                    }
+                }
+                recovered &= ok;
+            }
+            if recovered {
+                let pa = format!("rq-{}-3-30|hold", s_out);
+                let pb = format!("rq-{}-3-31|quick", s_out);
+                let (pa2, pb2) = (pa.clone(), pb.clone());
+                let ta = tokio::spawn(async move {
+                    let t0 = Instant::now();
+                    let r = a.request(pa2).await;
+                    (outcome(r), t0.elapsed().as_millis())
+                });
+                tokio::time::sleep(Duration::from_millis(50)).await;
+                let tb = tokio::spawn(async move {
+                    let t0 = Instant::now();
+                    let r = b.request(pb2).await;
+                    (outcome(r), t0.elapsed().as_millis())
+                });
+                if let (Ok((ra, ma)), Ok((rb, mb))) = (ta.await, tb.await) {
+                    let _ = writeln!(out, "call {} 330 hold {} -> {} {}", s_out, pa, ra, ma);
+                    let _ = writeln!(out, "call {} 331 quick {} -> {} {}", s_out, pb, rb, mb);
+                }
+            } else {
+                let _ = writeln!(out, "note clones_did_not_recover");
             }
         }
     }
